@@ -338,10 +338,18 @@ class TreeEng(Engine):
         if dst is None:
             return 'restored snapshot unparsable: ' + head
         want = [e for e in src if F['fifo'] or e['type'] != 'p']
+        linked = {p for g in groups(src) for p in g}
         if [e['path'] for e in dst] != [e['path'] for e in want]:
             a, b = {e['path'] for e in want}, {e['path'] for e in dst}
-            return f'names differ: missing {sorted(a - b)[:3]} extra {sorted(b - a)[:3]}'
-        linked = {p for g in groups(src) for p in g}
+            lsym = {e['path'] for e in src if e['type'] == 'l' and e['path'] in linked}
+            if cpio and not (b - a) and (a - b) <= lsym:
+                # recorded finding: both names of a hard-linked symlink are lost; compare the rest
+                want = [e for e in want if e['path'] in b]
+                kf = f"KF-cpio-symlink-hardlink: hard-linked symlink(s) {sorted(a - b)[:2]} not restored at all"
+            else:
+                return f'names differ: missing {sorted(a - b)[:3]} extra {sorted(b - a)[:3]}'
+        else:
+            kf = None
         for s, d in zip(want, dst):
             if s['path'] == '-' and not F.get('root', True):
                 continue
@@ -349,12 +357,8 @@ class TreeEng(Engine):
             if cpio and s['path'] in linked and s['type'] == 'f' and uid != 0 and s['mode'] & 0o200 == 0 \
                     and d['type'] == 'f' and d['size'] == 0 and s['size'] > 0:
                 return f"KF-cpio-ro-hardlink: read-only hard-linked file {s['path']} restored empty by a non-root user"
-            if cpio and s['path'] in linked and s['type'] == 'l' and d['type'] == 'l' and s['target'] != d['target'] \
-                    and any(d['target'] == '2e2f' + p for p in linked):
-                return f"KF-cpio-symlink-hardlink: hard-linked symlink {s['path']} restored with the link name as target"
-            if xar and s['path'] in linked and s['type'] == 'l' and d['type'] == 'l' and s['target'] != d['target'] \
-                    and any(d['target'] == '2e2f' + p for p in linked):
-                return f"KF-xar-nonregular-hardlink: hard-linked symlink {s['path']} restored with the link name as target"
+            if xar and s['path'] in linked and s['type'] == 'l' and d['type'] == 'f' and d['size'] == 0:
+                return f"KF-xar-nonregular-hardlink: second name {s['path']} of a symlink restored as an empty regular file"
             if s['type'] != d['type']:
                 return f"type of {s['path']}: {s['type']} -> {d['type']}"
             if s['type'] == 'f' and (d['content'] != 'ok' or d['size'] != s['size']):
@@ -382,7 +386,7 @@ class TreeEng(Engine):
                     return 'KF-xar-nonregular-hardlink: hard links between symlinks / fifos restored as separate objects'
             if gs != groups(dst):
                 return f'link structure differs: {gs[:2]} -> {groups(dst)[:2]}'
-        return None
+        return kf
 
     def nontrivial(self, case, impl):
         return any(o.startswith('R ') and o.count('|') >= 4 for o in impl)
